@@ -31,15 +31,20 @@ STUB = ['host (supplies numeric variables of every Python numeric type)']
 REACH_PROBES = ('host_int_operand', 'long_int_operand', 'float_operand', 'big_exponent_operand', 'mul_on_non_number_refused',
                 'compound_mul', 'compound_index_mul', 'pow', 'numeric_builtin', 'arithmetic_error', 'chain5')
 
-VARS = ['i', 'j', 'k', 'k2', 'big', 'huge', 'f', 'g', 't', 'd', 'e', 'm', 'w']
+VARS = ['i', 'j', 'k', 'k2', 'm47', 'm47b', 'b10', 'big', 'huge', 'f', 'g', 't', 'd', 'e', 'm', 'w']
+SMALL_EXPONENTS = ['i', 'j', 't', 'w', 'd']     # exponents are kept small so that a tree computing ** natively still terminates
 
 
 def _world(r):
     names = {
-        'i': r.choice([2, 3, 7, 10, -4, 12345]),
+        'i': r.choice([2, 3, 7, 10, -4, 123]),
         'j': r.choice([0, 1, 5, 99, -1]),
         'k': {'i': str(r.choice([2 ** 63, 10 ** 18 + 3, 999999999999999999, 2 ** 64 - 1, 10 ** 15]))},
         'k2': {'i': str(r.choice([2 ** 62 + 1, 10 ** 19 - 7, 123456789012345678, -(2 ** 63)]))},
+        'm47': {'i': str(r.choice([2 ** 47 - 1, 140737488355327, 99999999999999]))},
+        'm47b': {'i': str(r.choice([10 ** 14 + 1, 2 ** 46 + 12345, 123456789012345]))},
+        'b10': {'i': str(r.choice([10 ** 10, 10 ** 10 + 1]))},
+        'p5': 100000,
         'big': {'i': str(r.choice([10 ** 40 + 7, 3 ** 200, 12345678901234567890 ** 3, -(7 ** 150)]))},
         'huge': {'i': str(r.choice([9 ** 400, 10 ** 399 + 1]))},
         'f': {'f': repr(r.choice([0.5, 1.5, 2.0, 0.1, 1e308, 5e-324, -3.25, 1e16]))},
@@ -69,17 +74,31 @@ def _gen_op(r):
     k = weighted(r, [('bin', 7), ('short', 5), ('setitemop', 3), ('neg', 1), ('builtin', 5), ('chain', 1.5)])
     if k == 'bin':
         op = r.choice(['+', '-', '*', '/', '**', '*', '**'])
+        a = _operand(r)
         b = _operand(r)
-        if op == '**' and r.random() < 0.7:
-            b = ['num', str(r.randint(0, 40))]
-        return {'kind': 'bin', 'op': op, 'prog': ['assign', 'r', ['bin', op, _operand(r), b]]}
+        if op == '**':
+            x = r.random()
+            if x < 0.55:
+                b = ['num', str(r.randint(0, 40))]
+            elif x < 0.85:
+                b = ['name', r.choice(SMALL_EXPONENTS)]
+            else:
+                # a power whose exact value has a million digits: decimal arithmetic must overflow (an arithmetic error)
+                a, b = ['name', r.choice(['b10', 'i'])], ['name', 'p5']
+        return {'kind': 'bin', 'op': op, 'prog': ['assign', 'r', ['bin', op, a, b]]}
     if k == 'short':
         op = r.choice(['+=', '-=', '*=', '/=', '*=', '*=', '**='])
         tgt = r.choice(VARS + ['s', 'l', 'r'])
-        return {'kind': 'short', 'op': op, 'prog': ['short', tgt, op, _operand(r)]}
+        operand = _operand(r)
+        if op == '**=':
+            operand = ['name', r.choice(SMALL_EXPONENTS)] if r.random() < 0.8 else ['num', str(r.randint(0, 9))]
+        return {'kind': 'short', 'op': op, 'prog': ['short', tgt, op, operand]}
     if k == 'setitemop':
         op = r.choice(['+=', '-=', '*=', '/=', '*=', '**='])
-        return {'kind': 'setitemop', 'op': op, 'prog': ['setitemop', ['name', 'c'], ['str', r.choice(['k', 'q'])], op, _operand(r)]}
+        operand = _operand(r)
+        if op == '**=':
+            operand = ['name', r.choice(SMALL_EXPONENTS)]
+        return {'kind': 'setitemop', 'op': op, 'prog': ['setitemop', ['name', 'c'], ['str', r.choice(['k', 'q'])], op, operand]}
     if k == 'neg':
         return {'kind': 'neg', 'op': 'neg', 'prog': ['assign', 'r', ['neg', _operand(r)]]}
     if k == 'chain':
